@@ -50,11 +50,12 @@ type scen struct {
 	HeaderLen   int  // > 0: Dialer.Header of that many bytes (several header lines), so that connection writes happen inside the user's header writer
 	NoDeadlines bool // the connection refuses every SetDeadline call (no deadline support)
 	WrapConn    bool // Dialer.WrapConn is set (an identity wrapper; wsutil.DebugDialer always sets one)
+	Layer       bool // Dialer.WrapConn returns a protocol layer that OWNS its deadlines (SetDeadline is not forwarded to the transport)
 }
 
 func (s scen) String() string {
 	return fmt.Sprintf("ctx=%s(deadline=%v) timeout=%v event=%s place=%s cancelAt=%v peer=%s chunks=%d delay=%v wbuf=%d tls=%v dialDelay=%v lastOp=%d realtls=%v tls12=%v headerLen=%d",
-		s.CtxKind, s.CtxDeadline, s.Timeout, s.Event, s.Place, s.CancelAt, s.Peer, s.Chunks, s.ChunkDelay, s.WBuf, s.TLS, s.DialDelay, s.LastOp, s.RealTLS, s.TLS12, s.HeaderLen) + fmt.Sprintf(" nodeadlines=%v wrapconn=%v", s.NoDeadlines, s.WrapConn)
+		s.CtxKind, s.CtxDeadline, s.Timeout, s.Event, s.Place, s.CancelAt, s.Peer, s.Chunks, s.ChunkDelay, s.WBuf, s.TLS, s.DialDelay, s.LastOp, s.RealTLS, s.TLS12, s.HeaderLen) + fmt.Sprintf(" nodeadlines=%v wrapconn=%v layer=%v", s.NoDeadlines, s.WrapConn, s.Layer)
 }
 
 type ctxKey struct{}
@@ -129,6 +130,33 @@ type tlsWrap struct{ net.Conn }
 
 // appWrap is the application's Dialer.WrapConn wrapper (it forwards everything).
 type appWrap struct{ net.Conn }
+
+// ownDeadlineLayer is what the WrapConn documentation suggests: a protocol layer (end-to-end encryption, a
+// multiplexer) between the library and the transport. The library talks to one end of an in-memory pipe; two pump
+// goroutines move bytes between the other end and the transport. Deadlines set on the layer are the LAYER's: they
+// end its own blocked reads and writes and are not forwarded to the transport. Closing the layer closes the transport.
+type ownDeadlineLayer struct {
+	net.Conn // the library's end of the pipe
+	far      net.Conn
+	under    net.Conn
+}
+
+func newOwnDeadlineLayer(under net.Conn) net.Conn {
+	near, far := net.Pipe()
+	l := &ownDeadlineLayer{Conn: near, far: far, under: under}
+	go func() { io.Copy(under, far) }()
+	go func() {
+		io.Copy(far, under)
+		far.Close() // the transport has failed or ended: the layer reports the end of the stream
+	}()
+	return l
+}
+
+func (l *ownDeadlineLayer) Close() error {
+	l.Conn.Close()
+	l.far.Close()
+	return l.under.Close()
+}
 
 type result struct {
 	conn       net.Conn
@@ -278,6 +306,9 @@ func runScenario(t *testing.T, s scen) (o outcome) {
 		}
 		if s.WrapConn {
 			d.WrapConn = func(cn net.Conn) net.Conn { return appWrap{cn} }
+		}
+		if s.Layer {
+			d.WrapConn = newOwnDeadlineLayer
 		}
 		url := "ws://c20.example/x"
 		if s.TLS || s.RealTLS {
@@ -448,6 +479,17 @@ func judge(c *mon.C, s scen, o outcome) bool {
 		return false
 	}
 	// R2: never touched again
+	if s.Layer {
+		// (the layer's own pump goroutine was inside a transport Read when Dial closed the layer: that call ENDING
+		// with "closed" after the return is the layer's business, not a use of the connection by the library)
+		var kept []string
+		for _, e := range o.lateEvents {
+			if !(strings.Contains(e, " end ") && strings.Contains(e, "closed pipe")) {
+				kept = append(kept, e)
+			}
+		}
+		o.lateEvents = kept
+	}
 	if len(o.lateEvents) > 0 {
 		c.Fail("touched-after-return/"+cls, "the connection was used after Dial returned: "+o.lateEvents[0], det())
 		return false
@@ -635,6 +677,21 @@ func buildScenarios(t *testing.T) []scen {
 						s = sil
 						s.CtxKind, s.CtxDeadline, s.Timeout = "withdeadline", time.Second, 3*time.Second
 						scenList = append(scenList, s)
+						if wbuf == 4096 && !tls && j >= 0 {
+							// the same endings with a WrapConn LAYER that owns its deadlines between the library and the
+							// transport: the context's end must reach the connection Dial is blocked on
+							for _, ck := range []string{"withcancel", "withdeadline"} {
+								s := sil
+								s.CtxKind, s.CtxDeadline, s.Event, s.Place, s.Layer = ck, far, "cancel", "blocked", true
+								scenList = append(scenList, s)
+							}
+							s := sil
+							s.CtxKind, s.CtxDeadline, s.Layer = "withdeadline", 5*time.Second, true
+							scenList = append(scenList, s)
+							s = sil
+							s.CtxKind, s.CtxDeadline, s.Timeout, s.Layer = "withcancel", 10*time.Second, 3*time.Second, true
+							scenList = append(scenList, s)
+						}
 					}
 					// G: cancel with the watcher parked inside SetDeadline while the handshake I/O completes (101 and non-101 answers)
 					for _, pk := range []string{"responsive", "non101"} {
